@@ -1,3 +1,4 @@
+#define HV_EIGEN_ASSERT_THROWS
 // C03 numeric harness: Ad, ad, hat, vee, bracket of the real library (float/double) against the
 // matrix-level definitions computed with the independent documented forms in long double.
 #include "docmat.hpp"
@@ -92,7 +93,9 @@ void run(Report & rep, Rng & rng, int n, double tol)
   }
 }
 
-int main()
+static int hv_main();
+int main() { return hv::guard(hv_main); }
+static int hv_main()
 {
   Report rep;
   rep.property = "C03";
